@@ -102,7 +102,9 @@ def anchor_fns(facts):
     """Functions the rules identify by role on the program as written; they stay calls in the inlined normal form."""
     out = set(k for k in STATIC_ANCHORS if k in facts.bodies)
     for k, f in facts.fns.items():
-        if f.get("name") == "search" and f.get("impl_self", "").startswith("qualifiers::Qualifiers"):
+        if f.get("name") in ("search", "get_index") and f.get("impl_self", "").startswith("qualifiers::Qualifiers"):
+            out.add(k)
+        if f.get("name") == "into_key" and f.get("impl_self", "").startswith("qualifiers::"):
             out.add(k)
     try:
         from . import faults
